@@ -126,7 +126,7 @@ func check(args []string) {
 	matched := map[string]bool{}
 	var selected []*vc.BoundContract
 	for _, bc := range e.SortedContracts() {
-		key := bc.Pkg.PkgPath + "." + bc.FC.Key()
+		key := bc.KeyString()
 		for _, pat := range ps.Functions {
 			full := pat
 			if !strings.HasPrefix(pat, "github.com/") {
